@@ -86,14 +86,15 @@ def check(ck):
     r04_2(ck)
     r04_3(ck, rf)
     r04_4(ck)
-    from . import c05, c07, c08
+    from . import c05, c07, c08, c16
     ck.shared('R04.5', 'nothing makes the result depend on the listing '
               'order: updaters are the declared ones and leave shared '
               'objects alone (so that commuting updates commute), the '
               'sub-schema a store keeps is not shared with the process that '
               'was listed first, and dependency edges between steps do not '
               'depend on which step was registered first',
-              c08.r08_7_lookup, c08.r08_8, c07.r07_7, c05.r05_4)
+              c08.r08_7_lookup, c08.r08_8, c07.r07_7, c05.r05_4,
+              c16.r16_6)
 
 
 def r04_1(ck, rf):
